@@ -1,7 +1,7 @@
 ---------------------------- MODULE Trace_QFixed ----------------------------
 (* Judges recorded calls of the real fixed-point quantizers against QFixed (properties C01 and C02).
    Events (ndjson, floats as exact dyadics [m,e]):
-     {k:"call",  c:<cfg index>, x, y, yy, mn, mx}      y = q(x), yy = q(y), mn/mx = q.min()/q.max()
+     {k:"call",  c:<cfg index>, x, y, yy, mn, mx[, s]} y = q(x), yy = q(y), mn/mx = q.min()/q.max(), s = logged real sigmoid/tanh
      {k:"range", c:<cfg index>, vals:[...]}             q.range()
    CFG_FILE holds the sequence of configuration records (QFixed format, al/ub as [m,e]). *)
 EXTENDS QFixed, Json, IOUtils, TLC
@@ -32,11 +32,23 @@ SignVerdicts(c, ev) ==
      \o (IF Less(ev.y, ev.mn) \/ Less(ev.mx, ev.y) THEN <<"outside_minmax">> ELSE <<>>)
      \o (IF iscode /\ ~Eq(ev.yy, ev.y) THEN <<"not_idempotent">> ELSE <<>>)
 
+\* real sigmoid / tanh (set_internal_sigmoid("real"), use_real_sigmoid, use_real_tanh): the transcendental value s is
+\* logged from the same TF kernel; the library-wide mode feeds tanh with 2*s - 1, use_real_tanh with tanh itself
+HasSig(c, v) == "sig" \in DOMAIN c /\ c.sig = v
+RealMode(c) == HasSig(c, "real") \/ HasSig(c, "realflag")
+PosEv(c, ev) ==
+  IF HasSig(c, "real") THEN QPos(IF c.cls = "tanh" THEN Add32(Scale2(ev.s, 1), <<-1, 0>>) ELSE ev.s, StepE(c))
+  ELSE IF HasSig(c, "realflag") THEN QPos(ev.s, StepE(c))
+  ELSE Pos(c, ev.x)
+\* the order the monotonicity clause refers to: the input, or for a logged surrogate its value (an ulp-level wiggle of
+\* the kernel is not the quantizer's)
+Ordered(c, a, b) == Leq(a.x, b.x) /\ (RealMode(c) => Leq(a.s, b.s))
+
 CallVerdicts(ev) ==
   LET c == Cf[ev.c] IN
   IF IsSignFormat(c) THEN SignVerdicts(c, ev) ELSE
   LET yq == YQ(c, ev.y)
-      p == Pos(c, ev.x)
+      p == PosEv(c, ev)
       grid == yq[1] /\ (yq[2] % 4) = 0
   IN (IF ~grid THEN <<"not_multiple_of_step">>
       ELSE IF (yq[2] \div 4) \notin Codes(c) THEN <<"out_of_code_range">>
@@ -45,7 +57,7 @@ CallVerdicts(ev) ==
       ELSE <<>>)
      \o (IF Less(ev.y, ev.mn) \/ Less(ev.mx, ev.y) THEN <<"outside_minmax">> ELSE <<>>)
      \o (IF IdemDom(c) /\ ~Eq(ev.yy, ev.y) THEN <<"not_idempotent">> ELSE <<>>)
-     \o (IF i > 1 /\ Tr[i - 1].k = "call" /\ Tr[i - 1].c = ev.c /\ InDom(c, Tr[i - 1].x) /\ Leq(Tr[i - 1].x, ev.x) /\ Less(ev.y, Tr[i - 1].y)
+     \o (IF i > 1 /\ Tr[i - 1].k = "call" /\ Tr[i - 1].c = ev.c /\ InDom(c, Tr[i - 1].x) /\ Ordered(c, Tr[i - 1], ev) /\ Less(ev.y, Tr[i - 1].y)
          THEN <<"not_monotone">> ELSE <<>>)
      \o (IF yq[1] /\ yq[2] \notin Design(c, p) THEN <<"DEV_differs_from_design">> ELSE <<>>)
 
